@@ -66,10 +66,14 @@ pub enum Attr {
 
 #[derive(Clone, Debug, Serialize, Deserialize, PartialEq)]
 pub struct FieldDoc {
+    /// element id (same id space as items); identified by the start of its type
+    pub id: u32,
     pub attrs: Vec<Attr>,
     pub name: Option<String>,
     pub ty: String,
     pub vis: String,
+    #[serde(default = "zero")]
+    pub r_ty: Range,
 }
 
 #[derive(Clone, Debug, Serialize, Deserialize, PartialEq)]
@@ -81,6 +85,10 @@ pub enum FieldsDoc {
 
 #[derive(Clone, Debug, Serialize, Deserialize, PartialEq)]
 pub struct VariantDoc {
+    /// element id; identified by the start of its name
+    pub id: u32,
+    #[serde(default = "zero")]
+    pub r_name: Range,
     pub attrs: Vec<Attr>,
     pub name: String,
     pub fields: FieldsDoc,
@@ -96,6 +104,10 @@ pub enum Body {
 
 #[derive(Clone, Debug, Serialize, Deserialize, PartialEq)]
 pub struct TParamDoc {
+    /// element id; identified by the start of its name
+    pub id: u32,
+    #[serde(default = "zero")]
+    pub r_name: Range,
     pub attrs: Vec<Attr>,
     pub name: String,
     pub bounds: String,
@@ -249,7 +261,9 @@ impl Renderer {
             self.push(n);
             self.push(": ");
         }
+        let a = self.pos();
         self.push(&f.ty);
+        f.r_ty = (a, self.pos());
     }
 
     fn fields(&mut self, f: &mut FieldsDoc) {
@@ -301,16 +315,22 @@ pub fn render(doc: &mut InputDoc) -> String {
             r.attrs(&mut g.attrs);
             match g.kind.as_str() {
                 "lifetime" => {
+                    let a = r.pos();
                     r.push("'");
                     r.push(&g.name.clone());
+                    g.r_name = (a, r.pos());
                 }
                 "const" => {
                     r.push("const ");
+                    let a = r.pos();
                     r.push(&g.name.clone());
+                    g.r_name = (a, r.pos());
                     r.push(": usize");
                 }
                 _ => {
+                    let a = r.pos();
                     r.push(&g.name.clone());
+                    g.r_name = (a, r.pos());
                     if !g.bounds.is_empty() {
                         r.push(": ");
                         r.push(&g.bounds.clone());
@@ -337,7 +357,9 @@ pub fn render(doc: &mut InputDoc) -> String {
             for v in vs.iter_mut() {
                 r.sep();
                 r.attrs(&mut v.attrs);
+                let a = r.pos();
                 r.push(&v.name.clone());
+                v.r_name = (a, r.pos());
                 r.fields(&mut v.fields);
                 if let Some(d) = &v.discriminant {
                     r.push(" = ");
@@ -407,4 +429,27 @@ pub fn for_each_item<'a>(doc: &'a InputDoc, f: &mut dyn FnMut(&'a Item)) {
 
 pub fn contains(outer: Range, inner: Range) -> bool {
     outer.0 <= inner.0 && inner.1 <= outer.1
+}
+
+/// Visit every body element (field, variant, generic parameter): (id, identifying range).
+pub fn for_each_element(doc: &InputDoc, f: &mut dyn FnMut(u32, Range)) {
+    fn fields(fd: &FieldsDoc, f: &mut dyn FnMut(u32, Range)) {
+        match fd {
+            FieldsDoc::Unit => {}
+            FieldsDoc::Named(fs) | FieldsDoc::Tuple(fs) => fs.iter().for_each(|x| f(x.id, x.r_ty)),
+        }
+    }
+    for g in &doc.generics {
+        f(g.id, g.r_name);
+    }
+    match &doc.body {
+        Body::Struct(fd) => fields(fd, f),
+        Body::Enum(vs) => {
+            for v in vs {
+                f(v.id, v.r_name);
+                fields(&v.fields, f);
+            }
+        }
+        Body::Union(fs) => fs.iter().for_each(|x| f(x.id, x.r_ty)),
+    }
 }
